@@ -16,7 +16,7 @@ CLAIMED = {
         technique="Coq proof over translator-regenerated tables + exhaustive model/implementation correspondence",
     ),
     "C01": dict(
-        text="Coq theorems over a hand model of the whole fuzzy dispatch (prefilters, greedy scan, equal-length and single-char shortcuts, slab guard, DP setup): the greedy entry point returns Match exactly when the needle is a subsequence of the normalised haystack and never panics (C01_greedy_decision); the optimal entry point rejects exactly the non-subsequences (C01_fuzzy_reject); the entry points agree and the decision is representation-independent outside known finding K1 (refuted witness included). All for every configuration and every string length. Partial: absence of panics inside the DP is C10's claim. Model tied to the code by a differential run (decision of both variants of both entry points, 16 configs x 4 representation pairs, sizes beyond the matrix/u16 limits; thorough: exhaustive small strings) and by the spec oracle subseq_b on the implementation's answers.",
+        text="Coq theorems over a hand model of the whole fuzzy dispatch (prefilters, greedy scan, equal-length and single-char shortcuts, slab guard, DP setup): the greedy entry point returns Match exactly when the needle is a subsequence of the normalised haystack and never panics (C01_greedy_decision); the optimal entry point likewise decides the relation and never panics (C01_fuzzy_decision, using the DP panic-freedom proof); the entry points agree and the decision is representation-independent outside known finding K1 (refuted witness included). All for every configuration and every string length. Model tied to the code by a differential run (decision of both variants of both entry points, 16 configs x 4 representation pairs, sizes beyond the matrix/u16 limits; thorough: exhaustive small strings) and by the spec oracle subseq_b on the implementation's answers.",
         design_ref="DESIGN.md section 6, C01",
         note="Trusted: Coq kernel, translator (constants, presets, slab guard), extraction, harness; memchr family and Rust std char predicates modelled by their specification. Known finding K1 excluded by hypothesis and listed in known_findings.json. Axioms: none.",
         technique="Coq proof (list induction, greedy-scan completeness) over a hand model + differential correspondence",
@@ -28,7 +28,7 @@ CLAIMED = {
         technique="Coq proof over a hand model + differential correspondence with spec oracle",
     ),
     "C02": dict(
-        text="Coq theorems: every algorithm that scores through calculate_score (greedy incl. its backward minimisation and forward re-walk, substring, prefix, postfix, exact, the equal-length / tight-window / single-character shortcuts) reports exactly one strictly increasing in-range index per needle character whose normalised haystack character equals it (C02_linear_witness), contiguous and anchored as the kind requires for substring/prefix/postfix/exact (C02_shape); the prior content of the caller's vector is a prefix of the result and untouched on failure. The DP's reconstruct_optimal_path is proved to report a valid embedding when prefix preference is off (C02_dp_witness, via the DP cell invariant of Proofs/DPCore.v). Partial only for DP runs with prefer_prefix on: validated by the differential run on indices with a non-empty prior vector and the embedding oracle (exhaustive small strings in the thorough tier).",
+        text="Coq theorems: every algorithm that scores through calculate_score (greedy incl. its backward minimisation and forward re-walk, substring, prefix, postfix, exact, the equal-length / tight-window / single-character shortcuts) reports exactly one strictly increasing in-range index per needle character whose normalised haystack character equals it (C02_linear_witness), contiguous and anchored as the kind requires for substring/prefix/postfix/exact (C02_shape); the prior content of the caller's vector is a prefix of the result and untouched on failure. The DP's reconstruct_optimal_path is proved to report a valid embedding for every configuration (C02_dp_witness: row invariant + back-pointer walk, Proofs/DPInv.v, DPWalk.v), so all six algorithms are covered.",
         design_ref="DESIGN.md section 6, C02",
         note="Trusted: Coq kernel, translator, extraction, harness; memchr/memmem by specification. Axioms: none.",
         technique="Coq proof over a hand model + differential correspondence with embedding oracle",
@@ -46,7 +46,7 @@ CLAIMED = {
         technique="Coq proof (argmax with early exit) + brute-force oracle on the implementation",
     ),
     "C10": dict(
-        text="Coq theorems: whenever MatrixSlab::alloc hands out views they lie inside the 133120-byte slab, are pairwise disjoint and aligned (C10_layout), over element-count expressions translated from MatrixLayout::new and fieds_from_ptr on every run (the `* haystack_len` extent of the pinned tree made this theorem fail; fixed in 5627689); the greedy entry point never panics (C10_greedy_total) and linear scores saturate (C10_no_wrap). Partial: no-panic and scratch-row independence of the DP are validated (not yet proved) by running every case on one shared Matcher and on a fresh Matcher per call in the debug profile (overflow checks on), sizes around every guard, needles of 2500-4000 characters, late starts with prefer_prefix; the cfg facade exports the real view extents which are compared with the model.",
+        text="Coq theorems: whenever MatrixSlab::alloc hands out views they lie inside the 133120-byte slab, are pairwise disjoint and aligned (C10_layout), over element-count expressions translated from MatrixLayout::new and fieds_from_ptr on every run (the `* haystack_len` extent of the pinned tree made this theorem fail; fixed in 5627689); the greedy and the optimal entry point (DP included) never panic (C10_greedy_total, C10_dp_no_panic: no u16 underflow in the row-offset arithmetic, no out-of-range index, the prefilter assertion never fires), linear scores saturate (C10_no_wrap), and the optimal matcher's result is independent of what earlier calls left in the scratch row (C10_history). Tie: every case runs on one shared Matcher and on a fresh Matcher per call in the debug profile (overflow checks on; thorough: also release), sizes around every guard, needles of 2500-4000 characters, late starts with prefer_prefix; the cfg facade exports the real view extents which are compared with the model. Partial: panic-freedom of substring/prefix/postfix/exact is covered only through their decision theorems (C05) and the harness.",
         design_ref="DESIGN.md section 6, C10",
         note="Trusted: Coq kernel, translator (layout expressions), extraction, harness; pointer provenance not modelled. Axioms: none.",
         technique="Coq arithmetic proof over translated layout expressions + call-sequence differential harness",
